@@ -547,7 +547,17 @@ fn recover(
     }
 
     // The replayed pages must be durable before the WAL, the only other copy of them, is dropped.
+    #[cfg(feature = "verif")]
+    let _vg = crate::verif::pre(
+        "recover_ht_fsync",
+        crate::verif::Kind::Fsync,
+        ht_fd.as_raw_fd(),
+        0,
+        &[],
+    )?;
     ht_fd.sync_all()?;
+    #[cfg(feature = "verif")]
+    _vg.done();
 
     // Finally, we collapse the WAL file and fsync.
     writeout::truncate_wal(wal_fd, true)?;
